@@ -856,8 +856,7 @@ void mmd_export_token_html(DString * out, const char * source, token * t, scratc
 					temp_short = scratch->footnote_being_printed;
 
 					if (scratch->extensions & EXT_RANDOM_FOOT) {
-						srand(scratch->random_seed_base + temp_short);
-						temp_short = rand() % 32000 + 1;
+						temp_short = random_anchor(scratch->random_seed_base, temp_short);
 					}
 
 					printf(" <a href=\"#fnref:%d\" title=\"%s\" class=\"reversefootnote\">&#160;&#8617;&#xfe0e;</a>", temp_short, LC("return to body"));
@@ -1652,8 +1651,7 @@ parse_citation:
 					// This is a re-use of a previously used note
 
 					if (scratch->extensions & EXT_RANDOM_FOOT) {
-						srand(scratch->random_seed_base + temp_short);
-						temp_short3 = rand() % 32000 + 1;
+						temp_short3 = random_anchor(scratch->random_seed_base, temp_short);
 					} else {
 						temp_short3 = temp_short;
 					}
@@ -1664,8 +1662,7 @@ parse_citation:
 					// This is the first time this note was used
 
 					if (scratch->extensions & EXT_RANDOM_FOOT) {
-						srand(scratch->random_seed_base + temp_short);
-						temp_short3 = rand() % 32000 + 1;
+						temp_short3 = random_anchor(scratch->random_seed_base, temp_short);
 					} else {
 						temp_short3 = temp_short;
 					}
@@ -2522,8 +2519,7 @@ void mmd_export_footnote_list_html(DString * out, const char * source, scratch_p
 
 			if (scratch->extensions & EXT_RANDOM_FOOT) {
 				// Same anchor as the calls and the return link use
-				srand(scratch->random_seed_base + i + 1);
-				printf("<li id=\"fn:%d\">\n", rand() % 32000 + 1);
+				printf("<li id=\"fn:%d\">\n", random_anchor(scratch->random_seed_base, i + 1));
 			} else {
 				printf("<li id=\"fn:%d\">\n", i + 1);
 			}
